@@ -1,6 +1,7 @@
 import Ark.Proofs.GenBridge
 import Ark.Proofs.MaskLemmas
 import Ark.Proofs.ArchIndex
+import Ark.Props.C03Drain
 
 namespace Ark.Props.C03
 open Ark
@@ -21,5 +22,24 @@ theorem relation_lookup_complete : type_of% @Archetype.IndexInv.getTables_comple
 
 /-- without relation targets (or relations) the lookup returns all active tables, without duplicates -/
 theorem relation_lookup_all : type_of% @Archetype.IndexInv.getTables_all := @Archetype.IndexInv.getTables_all
+
+
+/-! ### The cursor machine: iterating a freshly opened query visits exactly the rows of the selected
+    tables, in order, once; Count and EntityAt agree with the iteration. -/
+
+/-- the cursor visits exactly the rows of the tables the counting walk selects (cached and uncached queries) -/
+theorem drain_visits_selected_rows : type_of% @Ark.Props.C03Drain.drain_rows_partial := @Ark.Props.C03Drain.drain_rows_partial
+
+/-- Count equals the number of rows visited -/
+theorem count_eq_visits : type_of% @Ark.Props.C03Drain.count_eq_visits := @Ark.Props.C03Drain.count_eq_visits
+
+/-- EntityAt(i) is the i-th visited entity; beyond Count it is the out-of-bounds panic -/
+theorem entityAt_eq_visit : type_of% @Ark.Props.C03Drain.entityAt_eq_visit := @Ark.Props.C03Drain.entityAt_eq_visit
+
+/-- every row is visited exactly once when the selected tables are duplicate-free -/
+theorem visits_nodup : type_of% @Ark.Props.C03Drain.visits_nodup := @Ark.Props.C03Drain.visits_nodup
+
+/-- a complete iteration returns these visits and only releases its lock bit -/
+theorem drain_closes_and_unlocks : type_of% @Ark.Props.C03Drain.drain_rows_monadic := @Ark.Props.C03Drain.drain_rows_monadic
 
 end Ark.Props.C03
